@@ -96,3 +96,21 @@ static void arange_check(int narg){
 void h_arange3(void){ arange_check(3); }
 void h_arange2(void){ arange_check(2); }
 void h_arange1(void){ arange_check(1); }
+
+/* np.full_like(a, v) without dtype: element type of a (uint8 here), value converted to it; with dtype=uint32 the requested type */
+void h_full_like_etype(void){
+  u64 shape[2], idx[4] = {0}, os[4] = {0}, od = 0, esz = 0; u8 data[16] = {0}; u32 out = 7;
+  shape[0] = in_u64(1, MAXE); shape[1] = in_u64(1, MAXE); for (int i = 0; i < MAXE*MAXE; i++) data[i] = in_any8();
+  u32 value = in_any32(); idx[0] = in_u64(0, MAXE - 1); idx[1] = in_u64(0, MAXE - 1); ASSUME(idx[0] < shape[0] && idx[1] < shape[1]);
+#if WITH_DTYPE
+  int r = k_full_like_u8_dtype(shape, data, value, idx, 2, os, &od, &out, &esz);
+  ASSERT(r == 1 && od == 2 && os[0] == shape[0] && os[1] == shape[1], "shape of a");
+  ASSERT(esz == 4 && out == value, "explicit dtype uint32: 4-byte elements holding the fill value");
+#else
+  int r = k_full_like_u8(shape, data, value, idx, 2, os, &od, &out, &esz);
+  ASSERT(r == 1 && od == 2 && os[0] == shape[0] && os[1] == shape[1], "shape of a");
+  ASSERT(esz == 1, "no dtype: the element type of the prototype array (1 byte)");
+  ASSERT(out == (u32)(u8)value, "the fill value is converted to the prototype's element type");
+#endif
+  OBS(out); OBS(esz); REACHED();
+}
